@@ -91,7 +91,7 @@ package layer
 //@   requires n.fs != nil && n.fs.r != nil && n.fs.s != nil
 //@   callbackinv "ForeachChild" : forall k string :: k in whiteouts ==> hasPrefix(k, whiteoutPrefix)
 //@   loop 0 invariant[C07] forall k string :: k in whiteouts ==> hasPrefix(k, whiteoutPrefix)
-//@   loop 0 step[C07] len(ents) == prev(len(ents)) || (len(ents) == prev(len(ents)) + 1 && ents[len(ents)-1].Name == w[len(whiteoutPrefix):] && ents[len(ents)-1].Mode == 8192)
+//@   loop 0 step[C07] len(ents) == prev(len(ents)) || (len(ents) == prev(len(ents)) + 1 && ents[len(ents)-1].Name == w[len(whiteoutPrefix):] && ents[len(ents)-1].Mode == 8192 && !hasPrefix(ents[len(ents)-1].Name, whiteoutPrefix))
 
 // ---- C15: prefetch range selection; the prefetch waiter is released on every path; waiting is bounded ----
 // cacheReqs / cacheReqSize: number of Blob.Cache requests issued and the size of the last one (offset is always 0 here).
